@@ -77,3 +77,27 @@ Definition check_plate (c : string * string * (dy * dy * dy) * (dy * dy * dy) * 
   | None, _, _, _ => 3%Z
   | _, _, _, _ => 1%Z
   end.
+
+(* ------------------------------------------------------------------ Euler pole: spherical <-> cartesian
+   PlateMotion.to_cartesian(pole = (lat [deg], lon [deg], omega [deg/Myr])) -> (wx, wy, wz) [mas/yr] and
+   PlateMotion.to_spherical, over R (not executable; tied to the code by the round trip on the doubles) *)
+From Coq Require Import Reals.
+From Verif Require Import Lib.Atan2.
+Open Scope R_scope.
+
+Definition deg2rad : R := PI / 180.
+Definition rad2deg : R := 180 / PI.
+Definition rad2mas : R := 648000000 / PI.
+Definition mas2rad : R := PI / 648000000.
+
+Definition to_cartesian (p : R * R * R) : R * R * R :=
+  let '(latd, lond, om) := p in
+  let lat := latd * deg2rad in let lon := lond * deg2rad in
+  let w := om * deg2rad / 1000000 in
+  (w * cos lat * cos lon * rad2mas, w * cos lat * sin lon * rad2mas, w * sin lat * rad2mas).
+
+Definition to_spherical (p : R * R * R) : R * R * R :=
+  let '(x, y, z) := p in
+  let wx := x * mas2rad in let wy := y * mas2rad in let wz := z * mas2rad in
+  (atan2 wz (sqrt (wx * wx + wy * wy)) * rad2deg, atan2 wy wx * rad2deg,
+   sqrt (wx * wx + wy * wy + wz * wz) * rad2deg * 1000000).
